@@ -138,7 +138,8 @@ func checkC01() func(w *SketchWorld, slot int) []mc.Fail {
 		ent := w.M[slot].Ent
 		n := len(ent)
 		q := w.S[slot].Q()
-		alpha := specAlpha(w.Spec, w.Map)
+		wm, ws := w.M[slot].Map, w.M[slot].Spec
+		alpha := specAlpha(ws, wm)
 		if ra := q.RelativeAccuracy(); math.Abs(ra-alpha) > math.Ldexp(1, -49) {
 			fails = append(fails, mc.Fail{Clause: "C01.reported-accuracy", Detail: fmt.Sprintf("RelativeAccuracy()=%v but the sketch was configured with %v", ra, alpha)})
 		}
@@ -166,13 +167,13 @@ func checkC01() func(w *SketchWorld, slot int) []mc.Fail {
 				if k < 0 || k >= int64(n) {
 					continue
 				}
-				if matchesValue(w.Map, alpha, y, xs[k], "C01 value accuracy") {
+				if matchesValue(wm, alpha, y, xs[k], "C01 value accuracy") {
 					ok = true
 					break
 				}
 			}
 			if !ok {
-				fails = append(fails, mc.Fail{Clause: "C01.accuracy", Detail: fmt.Sprintf("%s, %s store, input %v: q=%v answered %v, not within alpha=%v of the order statistics at ranks %d..%d (%v, %v)", w.Spec, w.S[slot].Store, xs, p, y, alpha, lo, hi, xs[lo], xs[hi])})
+				fails = append(fails, mc.Fail{Clause: "C01.accuracy", Detail: fmt.Sprintf("%s, %s store, input %v: q=%v answered %v, not within alpha=%v of the order statistics at ranks %d..%d (%v, %v)", ws, w.S[slot].Store, xs, p, y, alpha, lo, hi, xs[lo], xs[hi])})
 				return
 			}
 			if p == 0 || p == 1 {
@@ -180,9 +181,9 @@ func checkC01() func(w *SketchWorld, slot int) []mc.Fail {
 				if p == 1 {
 					x = xs[n-1]
 				}
-				want, alt := binValue(w.Map, x)
+				want, alt := binValue(wm, x)
 				if y != want && y != alt {
-					fails = append(fails, mc.Fail{Clause: "C01.extreme-bin", Detail: fmt.Sprintf("%s, %s store, input %v: q=%v answered %v, the bin of the true extreme %v is %v", w.Spec, w.S[slot].Store, xs, p, y, x, want)})
+					fails = append(fails, mc.Fail{Clause: "C01.extreme-bin", Detail: fmt.Sprintf("%s, %s store, input %v: q=%v answered %v, the bin of the true extreme %v is %v", ws, w.S[slot].Store, xs, p, y, x, want)})
 					return
 				}
 			}
@@ -219,12 +220,13 @@ func specAlpha(s MapSpec, m mapping.IndexMapping) float64 {
 func checkC12() func(w *SketchWorld, slot int) []mc.Fail {
 	return func(w *SketchWorld, slot int) (fails []mc.Fail) {
 		fail := func(clause, format string, a ...any) {
-			fails = append(fails, mc.Fail{Clause: clause, Detail: fmt.Sprintf("%s, %s store, exact=%v, absorbed %v: ", w.Spec, w.S[slot].Store, w.S[slot].Exact, w.M[slot].Ent) + fmt.Sprintf(format, a...)})
+			fails = append(fails, mc.Fail{Clause: clause, Detail: fmt.Sprintf("%s, %s store, exact=%v, absorbed %v: ", w.M[slot].Spec, w.S[slot].Store, w.S[slot].Exact, w.M[slot].Ent) + fmt.Sprintf(format, a...)})
 		}
 		sl := w.S[slot]
 		q := sl.Q()
 		md := w.M[slot]
-		alpha := specAlpha(w.Spec, w.Map)
+		wm, ws := md.Map, md.Spec
+		alpha := specAlpha(ws, wm)
 		var total float64
 		for _, e := range md.Ent {
 			total += e.W
@@ -260,28 +262,28 @@ func checkC12() func(w *SketchWorld, slot int) []mc.Fail {
 			switch {
 			case !md.Neg.Empty():
 				k, _ := md.Neg.Max()
-				wantMin = -w.Map.Value(k)
+				wantMin = -wm.Value(k)
 			case md.Zero > 0:
 				wantMin = 0
 			default:
 				k, _ := md.Pos.Min()
-				wantMin = w.Map.Value(k)
+				wantMin = wm.Value(k)
 			}
 			switch {
 			case !md.Pos.Empty():
 				k, _ := md.Pos.Max()
-				wantMax = w.Map.Value(k)
+				wantMax = wm.Value(k)
 			case md.Zero > 0:
 				wantMax = 0
 			default:
 				k, _ := md.Neg.Min()
-				wantMax = -w.Map.Value(k)
+				wantMax = -wm.Value(k)
 			}
 			if mn != wantMin || mx != wantMax {
 				fail("C12.extremes", "min=%v max=%v, the bins of the (clamped) extremes are %v and %v", mn, mx, wantMin, wantMax)
 			}
 			if !bounded {
-				if !matchesValue(w.Map, alpha, mn, xs[0], "C12 extreme accuracy") || !matchesValue(w.Map, alpha, mx, xs[len(xs)-1], "C12 extreme accuracy") {
+				if !matchesValue(wm, alpha, mn, xs[0], "C12 extreme accuracy") || !matchesValue(wm, alpha, mx, xs[len(xs)-1], "C12 extreme accuracy") {
 					fail("C12.extremes", "min=%v max=%v are not within alpha=%v of the true extremes %v and %v", mn, mx, alpha, xs[0], xs[len(xs)-1])
 				}
 			}
@@ -316,7 +318,7 @@ func checkC12() func(w *SketchWorld, slot int) []mc.Fail {
 				if (e.V < 0) != (md.Ent[0].V < 0) {
 					sameSign = false
 				}
-				if z, _ := zeroClass(w.Map, e.V); z && e.V != 0 {
+				if z, _ := zeroClass(wm, e.V); z && e.V != 0 {
 					tiny = true
 				}
 				p := new(big.Float).Mul(big.NewFloat(e.V), big.NewFloat(e.W))
@@ -327,7 +329,7 @@ func checkC12() func(w *SketchWorld, slot int) []mc.Fail {
 				t, _ := exact.Float64()
 				s := q.GetSum()
 				lim := alpha * math.Abs(t) * (1 + math.Ldexp(1, -40))
-				lim += relAllowance(w.Map, t) * math.Abs(t)
+				lim += relAllowance(wm, t) * math.Abs(t)
 				if math.Abs(s-t) > lim {
 					fail("C12.sum", "GetSum()=%v, true sum %v, error %v exceeds alpha*|sum|=%v", s, t, math.Abs(s-t), alpha*math.Abs(t))
 				}
@@ -375,14 +377,14 @@ func checkC12() func(w *SketchWorld, slot int) []mc.Fail {
 // kind fed the slot's whole input one value at a time.
 func checkC02(w *SketchWorld, slot int) (fails []mc.Fail) {
 	sl := w.S[slot]
-	twin := NewSkSlot(w.Map, sl.Store, sl.Exact)
+	twin := NewSkSlot(w.M[slot].Map, sl.Store, sl.Exact)
 	for _, e := range w.M[slot].Ent {
 		must(twin.Q().AddWithCount(e.V, e.W), "twin add refused")
 	}
 	got, want := ObserveSketch(sl.Q()), ObserveSketch(twin.Q())
 	if got != want {
 		fails = append(fails, mc.Fail{Clause: "C02.equals-single-sketch",
-			Detail: fmt.Sprintf("slot %s (%s store, %s) differs from one sketch fed the whole input %v\n  merged: %s\n  single: %s", slotName(slot), sl.Store, w.Spec, w.M[slot].Ent, got, want)})
+			Detail: fmt.Sprintf("slot %s (%s store, %s) differs from one sketch fed the whole input %v\n  merged: %s\n  single: %s", slotName(slot), sl.Store, w.M[slot].Spec, w.M[slot].Ent, got, want)})
 	}
 	return
 }
